@@ -108,7 +108,7 @@ def shrink(pattern, desc, shape, nmax, calls, method, crop, bc, prefill):
 def run(ctx):
     rng = ctx.rng
     ctx.check_theorems()
-    ctx.check_generated(['crop', 'blocks', 'kcalls', 'k', 'klog'])
+    ctx.check_generated(['crop', 'blocks', 'kcalls', 'k', 'klog', 'kcrop'])
     nh = ctx.n(150, 1500)
     nfound = 0
     items = []
